@@ -34,7 +34,8 @@ SHIFTS = [("center", "left"), ("center", "right"), ("center", "inner"), ("center
 OPS = ["diff", "interp", "min", "max"]
 OTHER = ["cumsum", "cumsum_outer", "derivative", "integrate", "average", "cumint", "diff_xy", "interp_xy",
          "ufunc_plain", "ufunc_overlap", "ufunc_overlap_outer", "vec_simple", "vec_faces", "scalar_faces",
-         "scalar_faces_xy", "metric_weighted", "multi_outer", "multi_outer_rev", "pair_one_graph", "product_one_graph", "min_xy_mixed", "max_yx_mixed"]
+         "scalar_faces_xy", "metric_weighted", "multi_outer", "multi_outer_rev", "pair_one_graph", "product_one_graph", "min_xy_mixed", "max_yx_mixed",
+         "ufunc_2in_1out", "ufunc_1in_2out", "ufunc_2in_1out_overlap"]
 
 
 def plen(p, n):
@@ -252,6 +253,27 @@ def run_other(case):
                 expect_refusal = True
                 lazy, eager = (lambda: apply_as_grid_ufunc(f2, dd, **args)), \
                     (lambda: apply_as_grid_ufunc(f2, da, **{**args, "dask": "forbidden", "map_overlap": False}))
+        elif w in ("ufunc_2in_1out", "ufunc_1in_2out", "ufunc_2in_1out_overlap", "ufunc_1in_2out_overlap"):
+            # custom grid ufuncs whose number of inputs differs from their number of outputs
+            ov = w.endswith("_overlap")
+            dl = xr.DataArray(((np.arange(6 * N) * 7 + 2) % 13 - 1.0).reshape(2, 3, N), dims=["t", "yc", "xl"])
+            lz = (lambda a: a.chunk({**{k: v for k, v in ch.items() if k in a.dims},
+                                     **({"xl": ch["xc"]} if "xl" in a.dims else {})})) if ov else \
+                (lambda a: a.chunk({"yc": ch["yc"], "t": ch["t"]}))
+            dk = dict(dask="allowed", map_overlap=True) if ov else dict(dask="parallelized")
+            ek = dict(dask="forbidden", map_overlap=False) if ov else dict(dask="forbidden")
+            if w.startswith("ufunc_2in_1out"):
+                fdiv = lambda flux, tr: (flux[..., 1:] - flux[..., :-1]) * tr[..., :-1]
+                args = dict(axis=[("X",), ("X",)], grid=g, signature="(X:left),(X:center)->(X:center)",
+                            boundary_width={"X": (0, 1)}, boundary=b)
+                lazy = lambda: apply_as_grid_ufunc(fdiv, lz(dl), lz(da), **args, **dk)
+                eager = lambda: apply_as_grid_ufunc(fdiv, dl, da, **args, **ek)
+            else:
+                fboth = lambda a: (a[..., 1:] - a[..., :-1], a[..., 1:] + a[..., :-1])
+                args = dict(axis=[("X",)], grid=g, signature="(X:center)->(X:left),(X:left)",
+                            boundary_width={"X": (1, 0)}, boundary=b)
+                lazy = lambda: apply_as_grid_ufunc(fboth, lz(da), **args, **dk)
+                eager = lambda: apply_as_grid_ufunc(fboth, da, **args, **ek)
         elif w in ("min_xy_mixed", "max_yx_mixed"):
             # an earlier axis chunked along its dimension, a later one in a single chunk
             if w == "min_xy_mixed":
